@@ -461,7 +461,12 @@ func (w *Worker) step(st *State) {
 		fr.pc++
 	case *ssa.Go:
 		st.abort("go statement unsupported")
-	case *ssa.MakeChan, *ssa.Send, *ssa.Select:
+	case *ssa.MakeChan:
+		// channels are opaque identities; no operation on them is supported
+		id := st.heap.alloc(int64(0), in.Type(), "chan")
+		fr.env[fr.fi.reg[in]] = Ptr{Obj: id}
+		fr.pc++
+	case *ssa.Send, *ssa.Select:
 		st.abort("channel operations unsupported")
 	case *ssa.Store:
 		st.store(st.get(fr, in.Addr).(Ptr), st.get(fr, in.Val))
